@@ -29,7 +29,12 @@ RULE = ("two streams.  (a) single calls; (b) HISTORIES (a third of the cases): a
         "+= / profile.extend; equal ballots raise multiplicities in a multiprofile) or the object is re-used with another "
         "tie-breaking rule / initial allocation / resoluteness, then the observed call with the same objects (and a "
         "repeated identical call, which must return the identical outcome); the model is fed the FINAL election rebuilt "
-        "from scratch.  Elections with 0..6 voters and 1..7 projects (<=6 when irresolute); all four ballot types x every shipped "
+        "from scratch.  (c) EXACT-TIE stream (1/6): an integer-cost and a fractional-cost project (int vs mpq inside the "
+        "library) with exactly equal satisfaction per cost, the common value not representable in binary (thirds, "
+        "fifths, sevenths, ...), random ranks and tie-breaking rule, budget fitting only one of the two; (d) NEAR-TIE "
+        "stream (1/12): densities built from 6..9-digit integers with sA*cB - sB*cA = 1 (relative gap 1e-12..1e-18), "
+        "the denser project must win; (e) DEGENERATE stream (1/12): no ballots, only empty ballots, only unaffordable "
+        "projects supported, exhaustive initial allocation, all costs zero.  (a) elections with 0..6 voters and 1..7 projects (<=6 when irresolute); all four ballot types x every shipped "
         "satisfaction measure accepted by the ballot type x Profile/MultiProfile x every shipped tie-breaking rule "
         "accepted x is_sat_additive in {default, forced True, forced False} x resolute/irresolute x feasible initial "
         "allocations; costs from tie-rich pools (zeros, equal costs, halves/thirds), budgets on boundaries; "
@@ -84,7 +89,7 @@ POOLS = [
 
 
 def budget(tier):
-    return 3000 if tier == "quick" else 40000
+    return 3600 if tier == "quick" else 48000
 
 
 def _gen_ballots(rng, kind, n, nv):
@@ -112,7 +117,7 @@ def _gen_ballots(rng, kind, n, nv):
     return ballots
 
 
-def gen(rng, i, tier):
+def _gen_general(rng, i, tier):
     kind = rng.choice(["approval"] * 9 + ["cardinal"] * 4 + ["cumulative"] * 3 + ["ordinal"] * 4)
     resolute = rng.random() < 0.7
     n = rng.choice([1, 2, 3, 3, 4, 4, 5, 5, 6, 6, 7]) if resolute else rng.choice([1, 2, 3, 3, 4, 4, 5, 5, 6])
@@ -183,6 +188,163 @@ def gen(rng, i, tier):
                         "init1": init1 if rng.random() < 0.4 else init,
                         "resolute1": resolute if rng.random() < 0.8 else (not resolute),
                         "repeat": rng.random() < 0.5}
+    return case
+
+
+def _sat_ballots(rng, kind, sats, n):
+    """ballots whose TOTAL satisfaction per project is exactly the integer sats[p]:
+    cardinal/cumulative + Additive_Cardinal_Sat (scores split over 1..3 voters) or approval + Cardinality_Sat
+    (sats[p] approvers among max(sats) voters)"""
+    if kind == "approval":
+        nv = max(sats + [1])
+        ballots = [[] for _ in range(nv)]
+        for p, sp in enumerate(sats):
+            for v in rng.sample(range(nv), sp):
+                ballots[v].append(p)
+        return [sorted(b) for b in ballots], "Cardinality_Sat"
+    nv = rng.choice([1, 2, 3])
+    ballots = [dict() for _ in range(nv)]
+    for p, sp in enumerate(sats):
+        rest = sp
+        for v in range(nv):
+            x = rest if v == nv - 1 else rng.randrange(0, rest + 1)
+            rest -= x
+            if x or rng.random() < 0.3:
+                ballots[v][str(p)] = "%d/1" % x
+    return ballots, "Additive_Cardinal_Sat"
+
+
+def _targeted(rng, kind, costs, sats, b, stream):
+    n = len(costs)
+    order = list(range(n))
+    rng.shuffle(order)                                   # random ranks: name order prefers either side
+    costs = [costs[j] for j in order]
+    sats = [sats[j] for j in order]
+    ballots, sat = _sat_ballots(rng, kind, sats, n)
+    tbs = ["lexico", "min_cost", "max_cost"] + (["app_score"] if kind == "approval" else [])
+    return {"kind": kind, "costs": [pb.qs(c) for c in costs], "budget": pb.qs(b), "ballots": ballots,
+            "multi": rng.random() < 0.4, "sat": sat, "tb": rng.choice(tbs),
+            "additive": rng.choice([None, None, True, False]), "resolute": rng.random() < 0.85,
+            "init": [], "via": "profile" if rng.random() < 0.25 else "class", "solver": False, "stream": stream}
+
+
+def _gen_exact_tie(rng, i, tier):
+    """an integer-cost and a fractional-cost project (ints and mpq inside the library) with EXACTLY equal
+    satisfaction per cost, the common value not representable in binary; the budget fits only one of them"""
+    from math import gcd
+
+    kind = rng.choice(["approval", "approval", "cardinal", "cumulative"])
+    top = 6 if kind == "approval" else 12
+    while True:
+        den = rng.choice([3, 5, 6, 7, 9, 11, 12, 13])
+        num = rng.randrange(2, top + 1)
+        if gcd(num, den) != 1:
+            continue
+        k = rng.choice([1, 1, 2])
+        if num * k > top:
+            continue
+        sB = rng.randrange(1, top + 1)
+        if (sB * den) % num == 0:
+            continue
+        break
+    cA, sA = Fraction(den * k), num * k                  # density num/den, integer cost
+    cB = Fraction(sB * den, num)                         # same density, fractional cost
+    costs, sats = [cA, cB], [sA, sB]
+    for _ in range(rng.choice([0, 0, 1, 2])):            # fillers: never denser than the tied pair
+        c = pb.F(rng.choice([1, 2, 3, "3/2", "5/2", "7/3", 4]))
+        smax = int(c * num / den)
+        costs.append(c)
+        sats.append(rng.randrange(0, min(top, smax) + 1))
+    lo, hi = max(cA, cB), cA + cB
+    b = rng.choice([lo, lo + (hi - lo) / 2, lo + (hi - lo) / 3, hi - Fraction(1, 7)])
+    if rng.random() < 0.15:
+        b = hi + rng.choice([0, 1])                      # sometimes both fit
+    return _targeted(rng, kind, costs, sats, b, "exact_tie")
+
+
+def _gen_near_tie(rng, i, tier):
+    """two projects whose densities differ by a relative 1e-12 .. 1e-18 (large integers with
+    sA*cB - sB*cA = +-1): the denser one must win whatever the tie-breaking rule says"""
+    from math import gcd
+
+    kind = rng.choice(["cardinal", "cardinal", "cumulative"])
+    e = rng.choice([6, 7, 8, 9])
+    while True:
+        cA = rng.randrange(10 ** (e - 1), 10 ** e)
+        cB = rng.randrange(10 ** (e - 1), 10 ** e)
+        if cA != cB and gcd(cA, cB) == 1:
+            break
+    sA = pow(cB, -1, cA)                                 # sA*cB = 1 (mod cA)
+    sB = (sA * cB - 1) // cA                             # sA*cB - sB*cA = 1  -> A is denser by 1/(cA*cB)
+    costs, sats = [Fraction(cA), Fraction(cB)], [sA, sB]
+    if rng.random() < 0.5:                               # a common rescaling keeps the order of the densities and
+        g = rng.choice([2, 3, 7, Fraction(3, 2)])        # turns one or both costs into an mpq inside the library
+        costs = [c / g for c in costs]
+    if rng.random() < 0.3:
+        costs.append(Fraction(rng.randrange(1, 10 ** (e - 2) + 2)))
+        sats.append(0)
+    lo, hi = max(costs[0], costs[1]), costs[0] + costs[1]
+    b = rng.choice([lo, lo + (hi - lo) / 2, hi - 1])
+    return _targeted(rng, kind, costs, sats, b, "near_tie")
+
+
+def _gen_degenerate(rng, i, tier):
+    """elections in which 'nothing to gain' short-cuts would be tempting: no ballot at all, only empty ballots, only
+    unaffordable projects supported, everything affordable already in the initial allocation, all costs zero"""
+    case = _gen_general(rng, i, tier)
+    while case["solver"]:
+        case = _gen_general(rng, i, tier)
+    n = len(case["costs"])
+    costs = [pb.F(c) for c in case["costs"]]
+    b = pb.F(case["budget"])
+    v = rng.randrange(6)
+    empty = [] if case["kind"] in ("approval", "ordinal") else {}
+    if v == 0:
+        case["ballots"] = []
+    elif v == 1:
+        case["ballots"] = [empty for _ in range(rng.choice([1, 2, 3]))]
+    elif v == 2:                                         # support only what cannot be afforded
+        dear = [j for j in range(n) if costs[j] > b]
+        if not dear:
+            costs[0] = b + 1
+            case["costs"][0] = pb.qs(costs[0])
+            dear = [0]
+        if case["kind"] in ("approval", "ordinal"):
+            case["ballots"] = [list(dear) for _ in range(rng.choice([1, 2, 3]))]
+        else:
+            case["ballots"] = [{str(j): "2/1" for j in dear} for _ in range(rng.choice([1, 2, 3]))]
+        case["init"] = [j for j in case["init"] if j not in dear and costs[j] <= b][:1]
+        if sum((costs[j] for j in case["init"]), Fraction(0)) > b:
+            case["init"] = []
+    elif v == 3:                                         # initial allocation already exhaustive
+        order = sorted(range(n), key=lambda j: costs[j])
+        init, c = [], Fraction(0)
+        for j in order:
+            if c + costs[j] <= b:
+                init.append(j)
+                c += costs[j]
+        case["init"] = init
+    elif v == 4:
+        case["costs"] = ["0/1"] * n
+        case["init"] = case["init"][:1]
+    else:
+        case["ballots"] = []
+        case["init"] = []
+        case["multi"] = rng.random() < 0.5
+    case["stream"] = "degenerate"
+    return case
+
+
+def gen(rng, i, tier):
+    r = i % 12
+    if r in (1, 7):
+        return _gen_exact_tie(rng, i, tier)
+    if r == 4:
+        return _gen_near_tie(rng, i, tier)
+    if r == 10:
+        return _gen_degenerate(rng, i, tier)
+    case = _gen_general(rng, i, tier)
+    case["stream"] = "history" if case.get("hist") else "general"
     return case
 
 
@@ -384,7 +546,9 @@ def stats(cases, obs):
          "equal_costs": 0, "no_voters": 0, "nproj_hist": {}, "nvoters_hist": {},
          "runs_with_tied_round": 0, "runs_with_tie_left_to_name_order": 0, "irresolute_with_several_outcomes": 0,
          "nothing_selected": 0, "everything_selected": 0, "float_valued_sat": 0, "sat_profile_passed": 0,
-         "solver_reaching": 0,
+         "solver_reaching": 0, "stream": {},
+         "exact_cross_kind_density_tie_non_dyadic": 0, "exact_tie_only_one_fits_fast_path": 0,
+         "near_tie_rel_gap_below_1e-12": 0, "near_tie_only_one_fits": 0,
          "history": {"cases": 0, "voters_added_in_place": 0, "general_scheme": 0, "general_scheme_and_voters_added": 0,
                      "outcome_differs_from_first_call": 0, "general_voters_added_outcome_changed": 0,
                      "multiplicity_raised_in_place": 0, "reused_with_other_tb_or_init": 0, "repeated_call": 0,
@@ -421,6 +585,32 @@ def stats(cases, obs):
         d["float_valued_sat"] += c["sat"] in ("Cost_Sqrt_Sat", "Cost_Log_Sat", "Additive_Cost_Sqrt_Sat", "Additive_Cost_Log_Sat")
         d["sat_profile_passed"] += c["via"] == "profile"
         d["solver_reaching"] += bool(c.get("solver"))
+        inc(d["stream"], c.get("stream", "corpus"))
+        try:
+            spq = [Fraction(x) for x in o["sp"]]
+            B = pb.F(c["budget"])
+            pos = [j for j in range(len(cs)) if cs[j] > 0 and spq[j] > 0]
+            xt = nt = False
+            for a_ in pos:
+                for b_ in pos:
+                    if a_ < b_:
+                        da, db = spq[a_] / cs[a_], spq[b_] / cs[b_]
+                        one = max(cs[a_], cs[b_]) <= B < cs[a_] + cs[b_]
+                        if da == db and (cs[a_].denominator == 1) != (cs[b_].denominator == 1):
+                            dd = da.denominator
+                            while dd % 2 == 0:
+                                dd //= 2
+                            if dd != 1:
+                                d["exact_cross_kind_density_tie_non_dyadic"] += not xt
+                                xt = True
+                                if one and ea and c["resolute"]:
+                                    d["exact_tie_only_one_fits_fast_path"] += 1
+                        elif da != db and abs(da - db) / max(da, db) < Fraction(1, 10 ** 12):
+                            d["near_tie_rel_gap_below_1e-12"] += not nt
+                            nt = True
+                            d["near_tie_only_one_fits"] += bool(one)
+        except Exception:
+            pass
         h = c.get("hist")
         if h:
             H = d["history"]
